@@ -28,6 +28,15 @@ func (p *Process) notifyDaemonStopped() {
 	}
 }
 
+// forgetDaemonStopped drops a notification left over from an earlier launch (a liveness failure
+// reported while that launch was failing anyway): it must not count against the next launch
+func (p *Process) forgetDaemonStopped() {
+	select {
+	case <-p.procStateChan:
+	default:
+	}
+}
+
 func (p *Process) isDaemonLaunched() bool {
 	return p.procConf.IsDaemon && p.procState.ExitCode == 0
 }
